@@ -91,13 +91,24 @@ def _query(h, w, q, pairs):
     return ok
 
 
-def _handles3(sp, s0, q1, q2, q3, pack1, clean1, pack2, clean2):
+def _handles3(sp, s0, q1, q2, q3, pack1, clean1, pack2, clean2, small=False, creator=False):
     """three handles: H (long-open, under test), A (adds loose objects), B (packs and cleans).  H queries, A adds, B may
-    pack/clean, H queries again (everything acknowledged so far), A adds, B may pack/clean, H itself adds, H queries."""
-    w = make_world(10**9)
+    pack/clean, H queries again (everything acknowledged so far), A adds, B may pack/clean, H itself adds, H queries.
+    ``small``: a tiny pack_size_target, so that every packed object lands in a pack of its own; ``creator``: H is the
+    handle that created the container with init_container() and has stayed open since."""
+    w = make_world(10 if small else 10**9)
     try:
-        w.set_pack(0, [('obj', 2, sp)])
-        h, a, b = w.c, w.new_handle(), w.new_handle()
+        if creator:
+            h = w.C.Container(w.fresh_folder())
+            h.init_container(pack_size_target=10 if small else 10**9)
+            root = w.fresh_folder()
+            boot = w.new_handle(root)
+            boot.add_streamed_objects_to_pack([w.stream(2, sp)])
+            boot.close()
+            a, b = w.new_handle(root), w.new_handle(root)
+        else:
+            w.set_pack(0, [('obj', 2, sp)])
+            h, a, b = w.c, w.new_handle(), w.new_handle()
         if q1 < 5 and not _query(h, w, q1, [(2, sp)]):
             return False
         a.add_streamed_object(w.stream(0, s0))
@@ -116,6 +127,8 @@ def _handles3(sp, s0, q1, q2, q3, pack1, clean1, pack2, clean2):
         ok = _query(h, w, q3, [(2, sp), (0, s0), (1, 7), (3, 9)])
         a.close()
         b.close()
+        if creator:
+            h.close()
         return ok
     finally:
         w.cleanup()
@@ -127,3 +140,59 @@ def handles3(sp: int, s0: int, q1: int, q2: int, q3: int, pack1: bool, clean1: b
     post: _
     """
     return _handles3(sp, s0, q1, q2, q3, pack1, clean1, pack2, clean2)
+
+
+def handles3_small(sp: int, s0: int, q1: int, q2: int, q3: int, pack1: bool, clean1: bool, pack2: bool, clean2: bool) -> bool:
+    """
+    The same with a tiny pack_size_target: every packed object sits in a pack of its own.
+    pre: 1 <= sp <= 70000 and 1 <= s0 <= 70000 and 0 <= q1 <= 5 and 0 <= q2 <= 4 and 0 <= q3 <= 4
+    post: _
+    """
+    return _handles3(sp, s0, q1, q2, q3, pack1, clean1, pack2, clean2, True)
+
+
+def handles3_creator(sp: int, s0: int, q1: int, q2: int, q3: int, pack1: bool, clean1: bool, pack2: bool, clean2: bool, small: bool) -> bool:
+    """
+    The long-open handle is the one that created the container (init_container) and never closed.
+    pre: 1 <= sp <= 70000 and 1 <= s0 <= 70000 and 0 <= q1 <= 5 and 0 <= q2 <= 4 and 0 <= q3 <= 4
+    post: _
+    """
+    return _handles3(sp, s0, q1, q2, q3, pack1, clean1, pack2, clean2, small, True)
+
+
+def _handles_clean(sp, s0, q1, vacuum, repack):
+    """H (the maintenance handle) has queried the index; through another handle X (packed) is deleted and stored again as
+    a loose object, Y is added; then H runs clean_storage [and repack]: every handle still sees X and Y."""
+    w = make_world(10**9)
+    try:
+        w.set_pack(0, [('obj', 2, sp)])
+        h, b = w.c, w.new_handle()
+        if q1 < 5 and not _query(h, w, q1, [(2, sp)]):
+            return False
+        k2 = w.key(2, sp)
+        if b.delete_objects([k2]) != [k2]:
+            return False
+        b.add_streamed_object(w.stream(2, sp))
+        b.add_streamed_object(w.stream(0, s0))
+        h.clean_storage(vacuum=vacuum)
+        if repack:
+            h.repack()
+        pairs = [(2, sp), (0, s0)]
+        ok = True
+        for q in range(5):
+            ok = ok and _query(h, w, q, pairs) and _query(b, w, q, pairs)
+        c = w.new_handle()
+        ok = ok and _query(c, w, 1, pairs) and _query(c, w, 3, pairs)
+        c.close()
+        b.close()
+        return ok and inv_ok(w.image(), w, objs_map(w, pairs))
+    finally:
+        w.cleanup()
+
+
+def handles_clean(sp: int, s0: int, q1: int, vacuum: bool, repack: bool) -> bool:
+    """
+    pre: 1 <= sp <= 70000 and 1 <= s0 <= 70000 and 0 <= q1 <= 5
+    post: _
+    """
+    return _handles_clean(sp, s0, q1, vacuum, repack)
